@@ -109,8 +109,9 @@ def handle : List String → String
       match parseProgs nk progs with
       | none => "bad-op"
       | some ps =>
-        -- closeLogs is the last thing a Logging does (it keeps its writerKeys, so it is not reusable)
-        if ps.any (fun p => p.dropLast.contains .closeAll) then "bad-op" else
+        -- closeLogs is the last thing a Logging does (it keeps its writerKeys, so it is not reusable);
+        -- key 3 is reserved for `sched` lines (openWriter hides the value a failed constructor returns)
+        if ps.any (fun p => p.dropLast.contains .closeAll) || nk > 3 then "bad-op" else
         match parseSched ps.length sched with
         | none => "bad-op"
         | some sc => runCase nk ps sc
